@@ -147,6 +147,7 @@ def check(prog, run):
                 for (n, d), ch in zip(entry["args"], choices):
                     pick = [c for c in ch if c[0] == con.labels[n]][0]
                     kw[n] = pick[1]()
+                holder["kw"] = dict(kw)
                 inst = I.instantiate(con.cls, [con.opcode], dict(kw), None, _F())
                 built = [e for e in I.events if e["kind"] == "build_cdb"]
                 holder["built"] = built[-1]["kwargs"] if built else None
@@ -189,6 +190,28 @@ def check(prog, run):
                     else:
                         run.violation("unmarshall-cdb-recovers-field", "%s.%s" % (short, f),
                                       "built with %r, %s.unmarshall_cdb(cmd.cdb) returns %r" % (sent, short, got), file, line)
+                # decoding is an inverse only if nothing the CDB was built from is lost on the way: every bit of a constructor
+                # argument that reaches the decoded dictionary at all must reach it completely (distinct arguments, distinct results)
+                seen_atoms = set()
+                for v in res.values():
+                    v = norm_int(v)
+                    if isinstance(v, Sym) and v.bits is not None:
+                        for b in v.bits:
+                            if isinstance(b, frozenset):
+                                seen_atoms |= set(a for a in b if a is not True and a[0] == "p")
+                for an, av in (holder.get("kw") or {}).items():
+                    av = norm_int(av)
+                    if isinstance(av, Sym) and av.origin and av.origin[0] == "param" and av.bits is not None:
+                        mine = set(a for b in av.bits if isinstance(b, frozenset) for a in b if a is not True)
+                        got_mine = mine & seen_atoms
+                        if got_mine and got_mine != mine:
+                            lost = sorted(a[2] for a in mine - got_mine)
+                            run.violation("argument-recoverable-from-cdb", "%s argument %s" % (short, an),
+                                          "%s: bits %s of argument %s are in neither field that %s.unmarshall_cdb(cmd.cdb) returns, although its "
+                                          "other bits are: two commands that differ only there decode alike" % (con.label(), lost, an, short),
+                                          file, line)
+                        elif got_mine:
+                            run.ok("argument-recoverable-from-cdb", "%s argument %s" % (short, an))
                 same_bytes = isinstance(again, Buf) and again.cells is not None and isinstance(cdb, Buf) and cdb.cells is not None and \
                     [cell_bits(c) for c in again.cells] == [cell_bits(c) for c in cdb.cells]
                 if same_bytes:
